@@ -143,7 +143,11 @@ pub fn tokenize(src: &str) -> Lexed {
             toks.push(Tok { kind: TKind::Word, start, end: i });
             continue;
         }
-        if c.is_ascii_digit() {
+        if c.is_ascii_digit() || (c == b'-' && i + 1 < b.len() && b[i + 1].is_ascii_digit()) {
+            // a sign directly in front of digits is kept with the number (X.680 SignedNumber is written without blank in practice)
+            if c == b'-' {
+                i += 1;
+            }
             while i < b.len() && b[i].is_ascii_digit() {
                 i += 1;
             }
